@@ -308,6 +308,39 @@ class _mark_ignore_name(ast.NodeTransformer):
 _literal_types = (str, bytes, int, float, bool, complex)
 
 
+def _free_names(node: ast.AST) -> set:
+    "The names an expression uses that nothing inside it binds"
+    free = set()
+
+    def walk(n: ast.AST, bound: frozenset):
+        if isinstance(n, ast.Name):
+            if n.id not in bound:
+                free.add(n.id)
+        elif isinstance(n, ast.Lambda):
+            a = n.args
+            for d in a.defaults + [d for d in a.kw_defaults if d is not None]:
+                walk(d, bound)
+            own = {x.arg for x in a.posonlyargs + a.args + a.kwonlyargs}
+            own |= {x.arg for x in (a.vararg, a.kwarg) if x is not None}
+            walk(n.body, bound | own)
+        elif isinstance(n, (ast.ListComp, ast.SetComp, ast.GeneratorExp, ast.DictComp)):
+            inner = bound
+            for i, g in enumerate(n.generators):
+                walk(g.iter, bound if i == 0 else inner)
+                inner = inner | {t.id for t in ast.walk(g.target) if isinstance(t, ast.Name)}
+                for c in g.ifs:
+                    walk(c, inner)
+            for f in ("elt", "key", "value"):
+                if hasattr(n, f):
+                    walk(getattr(n, f), inner)
+        else:
+            for c in ast.iter_child_nodes(n):
+                walk(c, bound)
+
+    walk(node, frozenset())
+    return free
+
+
 class _rewrite_captured_vars(ast.NodeTransformer):
     def __init__(self, cv: inspect.ClosureVars, inlining: Tuple[Callable, ...] = ()):
         # A variable from an enclosing function hides a global of the same name.
@@ -364,9 +397,14 @@ class _rewrite_captured_vars(ast.NodeTransformer):
 
                 try:
                     helper_vars = global_getclosurevars(v)
+                    lm = _rewrite_captured_vars(helper_vars, self._inlining + (v,)).visit(lm)
                 except Exception:
-                    return lm
-                return _rewrite_captured_vars(helper_vars, self._inlining + (v,)).visit(lm)
+                    pass
+                # A name the helper leaves free (a function that stays a call by name) must
+                # not be taken for something bound where the helper is used.
+                if any(self.is_arg(n) for n in _free_names(lm)):
+                    return node
+                return lm
             else:
                 # If it is a local function, we need to parse it as an AST
                 return node
